@@ -323,7 +323,24 @@ func main() {
 					}(c)
 					evals += k
 				}
+				// the application watches the counters while traffic flows (the driver is built with -race)
+				pollDone, polled := make(chan struct{}), make(chan struct{})
+				go func() {
+					defer close(polled)
+					for {
+						select {
+						case <-pollDone:
+							return
+						default:
+						}
+						_ = ru.cp.GetNumRecordsReceived()
+						_ = ru.cp.GetNumConnToCollector()
+						time.Sleep(200 * time.Microsecond)
+					}
+				}()
 				wg.Wait()
+				close(pollDone)
+				<-polled
 				if proto != "udp" {
 					ok := false
 					for k := 0; k < 300; k++ {
